@@ -7,7 +7,6 @@ import (
 
 	clienttypes "github.com/bianjieai/tibc-go/modules/tibc/core/02-client/types"
 	packettypes "github.com/bianjieai/tibc-go/modules/tibc/core/04-packet/types"
-	host "github.com/bianjieai/tibc-go/modules/tibc/core/24-host"
 	routingtypes "github.com/bianjieai/tibc-go/modules/tibc/core/26-routing/types"
 	"github.com/bianjieai/tibc-go/modules/tibc/core/exported"
 	corekeeper "github.com/bianjieai/tibc-go/modules/tibc/core/keeper"
@@ -157,7 +156,7 @@ func H_C01_handler_recv() {
 	vp.SetIf(hasReceipt, func() { k.SetPacketReceipt(ctx, p.SourceChain, p.DestinationChain, p.Sequence) })
 	hasAck := vp.Bool("pre.hasAck")
 	vp.SetIf(hasAck, func() {
-		k.SetPacketAcknowledgement(ctx, p.SourceChain, p.DestinationChain, p.Sequence, packettypes.CommitAcknowledgement([]byte{7}))
+		k.SetPacketAcknowledgement(ctx, p.SourceChain, p.DestinationChain, p.Sequence, refCommit([]byte{7}))
 	})
 	proof := vp.Bytes("proof", 1, 1)
 	h := nondetHeight("h")
@@ -170,7 +169,7 @@ func H_C01_handler_recv() {
 	if p.DestinationChain == w.self && len(p.RelayChain) > 0 {
 		proving = p.RelayChain
 	}
-	verified := okCall(w, 1, proving, h, proof, p.SourceChain, p.DestinationChain, p.Sequence, packettypes.CommitPacket(p))
+	verified := okCall(w, 1, proving, h, proof, p.SourceChain, p.DestinationChain, p.Sequence, refCommit(p.Data))
 	stored, hasStored := k.GetPacketAcknowledgement(ctx, p.SourceChain, p.DestinationChain, p.Sequence)
 	if c.app.recvCalls > 0 {
 		vp.Reach("application received the packet")
@@ -189,17 +188,17 @@ func H_C01_handler_recv() {
 	if err == nil {
 		vp.Reach("receive message succeeded")
 		vp.Assert(onlyWrote(ctx, mark,
-			host.PacketReceiptKey(p.SourceChain, p.DestinationChain, p.Sequence),
-			host.PacketAcknowledgementKey(p.SourceChain, p.DestinationChain, p.Sequence),
-			host.MaxAckSeqKey(p.SourceChain, p.DestinationChain),
-			host.PacketCommitmentKey(p.SourceChain, p.DestinationChain, p.Sequence)),
+			refReceiptKey(p.SourceChain, p.DestinationChain, p.Sequence),
+			refAckKey(p.SourceChain, p.DestinationChain, p.Sequence),
+			refMaxAckKey(p.SourceChain, p.DestinationChain),
+			refCommitmentKey(p.SourceChain, p.DestinationChain, p.Sequence)),
 			"C19.2 a successful receive records exactly the receipt and, as the case may be, the acknowledgement (+ high-water mark) or the forwarded commitment")
 		vp.Assert(verified, "C01.1 the message succeeds only after a successful verification of exactly this packet")
 		vp.Assert(k.HasPacketReceipt(ctx, p.SourceChain, p.DestinationChain, p.Sequence), "C02.2 a successful message leaves the receipt")
 		if p.DestinationChain == w.self {
 			vp.Assert(c.app.recvCalls == 1, "C02.5 on the destination the application is invoked")
 			if c.app.ackBytes != nil {
-				vp.Assert(vp.And(hasStored, sameBytes(stored, packettypes.CommitAcknowledgement(c.app.ackBytes))), "C03.5 the recorded acknowledgement is the one the application returned")
+				vp.Assert(vp.And(hasStored, sameBytes(stored, refCommit(c.app.ackBytes))), "C03.5 the recorded acknowledgement is the one the application returned")
 				vp.Assert(len(c.app.ackBytes) > 0, "C03.4 an empty acknowledgement is never recorded")
 				vp.Assert(!hasAck, "C03.4 an acknowledgement is never overwritten")
 			}
@@ -210,7 +209,7 @@ func H_C01_handler_recv() {
 			fwd := k.GetPacketCommitment(ctx, p.SourceChain, p.DestinationChain, p.Sequence)
 			if authorised {
 				vp.Reach("relay chain forwarded")
-				vp.Assert(sameBytes(fwd, packettypes.CommitPacket(p)), "C11.1 an authorised packet is re-committed unchanged")
+				vp.Assert(sameBytes(fwd, refCommit(p.Data)), "C11.1 an authorised packet is re-committed unchanged")
 				vp.Assert(hasClient(w, p.DestinationChain), "C11.1 forwarded only towards a known destination")
 				vp.Assert(!hasStored || hasAck, "C11.1 a forwarded packet gets no acknowledgement on the relay chain")
 			} else {
@@ -238,7 +237,7 @@ func H_C03_handler_ack() {
 	vp.Assume(p.Sequence < 100)
 	hasCommit := vp.Bool("pre.hasCommit")
 	p0 := packettypes.Packet{Data: vp.Bytes("pre.committedData", 1, 1)}
-	stored := packettypes.CommitPacket(p0)
+	stored := refCommit(p0.Data)
 	vp.SetIf(hasCommit, func() { k.SetPacketCommitment(ctx, p.SourceChain, p.DestinationChain, p.Sequence, stored) })
 	ack := vp.Bytes("ack", 0, 1)
 	proof := vp.Bytes("proof", 1, 1)
@@ -250,11 +249,11 @@ func H_C03_handler_ack() {
 	if p.SourceChain == w.self && len(p.RelayChain) > 0 {
 		ackChain = p.RelayChain
 	}
-	verified := okCall(w, 2, ackChain, h, proof, p.SourceChain, p.DestinationChain, p.Sequence, packettypes.CommitAcknowledgement(ack))
+	verified := okCall(w, 2, ackChain, h, proof, p.SourceChain, p.DestinationChain, p.Sequence, refCommit(ack))
 	if c.app.ackCalls > 0 {
 		vp.Reach("application processed the acknowledgement")
 		vp.Assert(c.app.ackCalls == 1, "C03.3 the acknowledgement logic runs at most once per message")
-		vp.Assert(vp.And(hasCommit, sameBytes(stored, packettypes.CommitPacket(p))), "C03.3 the acknowledgement logic runs only while the commitment of exactly that packet is held")
+		vp.Assert(vp.And(hasCommit, sameBytes(stored, refCommit(p.Data))), "C03.3 the acknowledgement logic runs only while the commitment of exactly that packet is held")
 		vp.Assert(verified, "C03.3 the acknowledgement logic runs only after the acknowledging chain's client verified exactly this acknowledgement")
 		vp.Assert(!k.HasPacketCommitment(ctx, p.SourceChain, p.DestinationChain, p.Sequence), "C03.2 the commitment is dropped when the acknowledgement is processed")
 		vp.Assert(vp.And(sameBytes(c.app.ackSeen, ack), c.app.ackPacket.Sequence == p.Sequence, sameBytes(c.app.ackPacket.Data, p.Data)), "C03.3 the application sees the acknowledgement and packet unchanged")
